@@ -20,7 +20,7 @@ from mc import spaces as S
 from mc.registry import operators as OR
 
 PROPERTY = 'C05'
-BUDGET = {'quick': 900, 'thorough': 5400}
+BUDGET = {'quick': 1500, 'thorough': 5400}
 MAXDIM = 48
 
 
